@@ -73,30 +73,56 @@ def key_equal(k1, k2):
     return a['kind'] == b['kind'] and pub_bytes(a) == pub_bytes(b)
 
 
-def text_of(stype, value):
-    """the string as UTF-8 bytes, or None when it is not a usable string (unknown type, invalid
-    encoding, embedded NUL)"""
+def _decode(stype, value):
+    """the string as a Python str, or None when it is not a usable string (unknown type, invalid encoding: overlong
+    / truncated UTF-8, UTF-8 encoded surrogates, values above U+10FFFF, unpaired UTF-16 surrogates)"""
     if stype not in KNOWN_STRING_TYPES:
         return None
     if isinstance(value, (bytes, bytearray)):
         raw = bytes(value)
         try:
             if stype == 'utf8':
-                s = raw.decode('utf-8')
-            elif stype == 'bmp':
-                s = raw.decode('utf-16-be')
-            else:
-                s = raw.decode('latin-1')
+                return raw.decode('utf-8')          # strict: shortest form only, no surrogates, <= U+10FFFF
+            if stype == 'bmp':
+                return raw.decode('utf-16-be')      # strict: surrogates must be paired
+            return raw.decode('latin-1')
         except UnicodeDecodeError:
             return None
-    else:
-        s = value
-    if '\0' in s:
+    return value
+
+
+def text_of(stype, value):
+    """the string as UTF-8 bytes, or None when it is not a usable string (unknown type, invalid
+    encoding, embedded NUL)"""
+    s = _decode(stype, value)
+    if s is None or '\0' in s:
         return None
     try:
         return s.encode('utf-8')
     except UnicodeEncodeError:
         return None
+
+
+def text_doubt(stype, value):
+    """True when the header does not say what becomes of this (decodable) string: more than 255 bytes of UTF-8
+    (the header names no limit, but its list of error conditions is open-ended: "include"), a BMPString using a
+    surrogate pair (BMPString is UCS-2; the header only says it is converted to UTF-8), Unicode noncharacters,
+    a leading byte order mark"""
+    t = text_of(stype, value)
+    if t is None:
+        return False
+    if len(t) > 255:
+        return True
+    s = t.decode('utf-8')
+    if s[:1] == '\ufeff':
+        return True
+    for ch in s:
+        o = ord(ch)
+        if 0xFDD0 <= o <= 0xFDEF or (o & 0xFFFE) == 0xFFFE:
+            return True
+        if stype == 'bmp' and o > 0xFFFF:
+            return True
+    return False
 
 
 def _lower(b):
@@ -123,22 +149,33 @@ def ext_list(c):
     return c.get('exts') or []
 
 
+def _cert_name_matches(stype, value, server, silent):
+    """does this certificate name (CN value / dNSName) match the server name; names whose decoding the header
+    leaves open cannot produce a documented match (nor a documented mismatch when they would match)"""
+    ok = name_matches(text_of(stype, value), server)
+    if ok and text_doubt(stype, value):
+        silent.append('name-string-decoding-not-documented')
+        return False
+    return ok
+
+
 def server_name_check(c, server, silent):
     """True / False; appends to `silent` when the documentation does not decide"""
     if not server:
         return True
     sans = [e for e in ext_list(c) if e['id'] == 'san']
+    if not sans:
+        cn_res = [_cert_name_matches(st, v, server, silent) for rdn in c['subject'] for (a, st, v) in rdn if a == 'CN']
+        if len(set(cn_res)) > 1:
+            silent.append('several-CN')      # several CN with different outcomes: not documented
+            return True
+        return bool(cn_res and cn_res[0])
     cns = [text_of(st, v) for rdn in c['subject'] for (a, st, v) in rdn if a == 'CN']
     cn_res = [name_matches(n, server) for n in cns]
     if len(set(cn_res)) > 1:
-        cn_any = None   # several CN with different outcomes: not documented
+        cn_any = None
     else:
         cn_any = bool(cn_res and cn_res[0])
-    if not sans:
-        if cn_any is None:
-            silent.append('several-CN')
-            return True
-        return cn_any
     if len(sans) > 1:
         silent.append('several-SAN-extensions')
         return True
@@ -149,7 +186,7 @@ def server_name_check(c, server, silent):
             silent.append('SAN-without-dNSName-and-matching-CN')
         return False
     for v in dns:
-        if name_matches(text_of('utf8', v if isinstance(v, (bytes, bytearray)) else v.encode('latin-1')), server):
+        if _cert_name_matches('utf8', v if isinstance(v, (bytes, bytearray)) else v.encode('latin-1'), server, silent):
             return True
     return False
 
@@ -298,8 +335,10 @@ def validate(case):
             if sil:
                 # the documentation does not decide this case
                 return silent(sil[0])
-            direct = any((not a['ca']) and dn_equal(a['dn'], c['subject']) and key_equal(a['key'], c['key'])
-                         and not c.get('spki') for a in case['anchors'])
+            # an anchor whose key material was altered (a['keymod']: another public exponent, another point)
+            # holds a different key, whatever it was derived from
+            direct = any((not a['ca']) and dn_equal(a['dn'], c['subject']) and not a.get('keymod')
+                         and key_equal(a['key'], c['key']) and not c.get('spki') for a in case['anchors'])
             if direct:
                 # name matching and the RSA size limit are documented to apply to direct trust as well;
                 # which other parts of the certificate are inspected in that case is not documented
@@ -318,7 +357,7 @@ def validate(case):
         if c.get('garbage'):
             return reject(EXTRA_ELEMENT, 'trailing-garbage')
         for a in case['anchors']:
-            if a['ca'] and dn_equal(a['dn'], c['issuer']):
+            if a['ca'] and dn_equal(a['dn'], c['issuer']) and not a.get('keymod'):
                 code, why = sig_verifies(c, a['key'], None, case)
                 if code == 0:
                     return accept(i, False)
@@ -328,23 +367,24 @@ def validate(case):
 
 
 def name_elements(ee, requests, with_san):
-    """expected (status, value bytes) for each requested element.
+    """expected (status, value bytes) for each requested element; status 'm' = either -1, or 1 with this value.
     requests: list of (kind, ident, buflen): ('dn', attr), ('san', 'dns'|'email'|'uri'), ('other', dotted oid)
     with_san False: SAN-derived elements are not judged (None)"""
     out = [[0, b''] for _ in requests]
 
-    def fill(match, txt):
+    def fill(match, txt, doubt=False):
         for j, r in enumerate(requests):
             if out[j][0] == 0 and match(r):
                 if txt is not None and len(txt) < r[2]:
-                    out[j] = [1, txt]
+                    # 'm': found, but the header does not say whether such a string is converted or an error
+                    out[j] = ['m' if doubt else 1, txt]
                 else:
                     out[j] = [-1, b'']
                 return
 
     for rdn in ee['subject']:
         for (a, st, v) in rdn:
-            fill(lambda r: r[0] == 'dn' and r[1] == a, text_of(st, v))
+            fill(lambda r: r[0] == 'dn' and r[1] == a, text_of(st, v), text_doubt(st, v))
     sans = [e for e in ext_list(ee) if e['id'] == 'san']
     if len(sans) > 1:
         with_san = False
@@ -352,9 +392,9 @@ def name_elements(ee, requests, with_san):
         for n in e['names']:
             if n[0] in ('dns', 'email', 'uri'):
                 v = n[1] if isinstance(n[1], (bytes, bytearray)) else n[1].encode('latin-1')
-                fill(lambda r: r[0] == 'san' and r[1] == n[0], text_of('utf8', v))
+                fill(lambda r: r[0] == 'san' and r[1] == n[0], text_of('utf8', v), text_doubt('utf8', v))
             elif n[0] == 'other':
-                fill(lambda r: r[0] == 'other' and r[1] == n[1], text_of(n[2], n[3]))
+                fill(lambda r: r[0] == 'other' and r[1] == n[1], text_of(n[2], n[3]), text_doubt(n[2], n[3]))
     res = []
     for j, r in enumerate(requests):
         if r[0] != 'dn' and not with_san:
